@@ -1,4 +1,5 @@
 import Plonk.Props.C02
+import Plonk.Props.WidgetTie
 #print axioms Plonk.Props.C02.placeholder_consts
 #print axioms Plonk.Props.C02.accumulator_telescopes
 #print axioms Plonk.Props.C02.accumulator_telescopes_poly
@@ -15,3 +16,7 @@ import Plonk.Props.C02
 #print axioms Plonk.Props.C02.numerator_degree_bound
 #print axioms Plonk.Props.C02.soundness_witness
 #print axioms Plonk.Props.C02.verifier_identity_is_quotient_identity
+#print axioms Plonk.Props.WidgetTie.verifier_terms_are_the_source
+#print axioms Plonk.Props.WidgetTie.perm_scalars_are_the_models
+#print axioms Plonk.Props.WidgetTie.prover_quotient_terms_are_the_source
+#print axioms Plonk.Props.WidgetTie.prover_linearization_terms_are_the_source
